@@ -20,7 +20,7 @@ var boundaryFloats = []float64{0, math.Copysign(0, -1), 1, -1, 0.5, -0.5, 1.5, 2
 
 var boundaryStrings = []string{"", "a", "ab", "a\x00", "a\x00b", "a\xff", "\xff\xff", "\xff", "\x00", "\xc3\x28", "$x", "b", "abc", "A", "é", "a b"}
 
-var boundaryOffsets = []int{0, 3600, -27000, 20730}
+var boundaryOffsets = []int{0, 3600, -27000, 20730, -17762, -3630, -30} // incl. negative offsets with a seconds component (America/New_York before 1883 is -4:56:02)
 
 func boundaryTimes() []time.Time {
 	mk := func(y int, mo time.Month, d int) int64 { return time.Date(y, mo, d, 0, 0, 0, 0, time.UTC).UnixNano() }
